@@ -94,10 +94,10 @@ def check_lifecycle(case, ctx):
                     det.update(X)
         except ValueError as e:
             msg = str(e)
-            if name == "CUSUM" and "Standard deviation is 0" in msg:
+            if name == "CUSUM" and cat.is_domain_end(name, det, e):
                 ctx.label("truncated-sigma-zero")
                 break
-            if name == "PCACD" and "bandwidth" in msg:
+            if name == "PCACD" and cat.is_domain_end(name, det, e):
                 ctx.label("truncated-degenerate-window")
                 break
             _viol("unexpected-exception", name, f"ValueError: {msg}", case, i)
